@@ -70,6 +70,38 @@ TEXT = {
             'body is awaited; carried to the implementation model\'s response queue for every schedule by C01. The server-level '
             'clause (client receives it without sending the body) is exercised by the server correspondence.',
             'DESIGN.md section 5 C13', 'Coq proof (iff + run invariant) + differential run with output flushed between header block and body'),
+    'C02': ('Coq theorems: a request line is accepted iff it is METHOD SP URI SP VERSION with table METHOD/VERSION and a '
+            'non-empty UTF-8 URI without SP, fields verbatim; error precedence shape > method > URI > version; shape '
+            'characterised by the first two SP; every well-formed encoding (lines within the limit, headers acceptable under '
+            'the C15 rules, body of exactly Content-Length <= L bytes) is delivered verbatim and parsing continues on the rest '
+            '(pipelining), for every stream length; carried to every read schedule of the implementation model by C01. '
+            'PARTIAL: the converse (delivered => the stream has that form) and the whole-stream first-error theorem are not '
+            'single Coq statements; they are decided per run by comparing the implementation with an independent Python '
+            'recogniser of the grammar on generated and corrupted streams.', 'DESIGN.md section 5 C02',
+            'Coq proof (bi-implications for the request line, forward theorem for whole requests) + independent recogniser oracle'),
+    'C03': ('Coq theorems: Request::try_from reaches none of its 7 modelled panic sites for any bytes and max_len (CRLFCRLF '
+            'offset lemma); from every state satisfying the connection invariant, every call (try_read with any result within '
+            'recvmsg\'s contract, try_write with any result within write\'s contract, enqueue, pop, clear, set limit) keeps the '
+            'invariant, reaches no modelled panic site (slices, unwrap, drain, unchecked arithmetic, loop-fuel exhaustion) and '
+            'makes at most one system call; hence no sequence of calls does, including continued use after every error kind. '
+            'Panics inside std and allocation failure are not modelled. Implementation run with catch_unwind and overflow '
+            'checks on random/mutated bytes through all public parsers and random call sequences.',
+            'DESIGN.md section 5 C03', 'Coq proof (invariant preservation over all calls; explicit panic outcomes) + catch_unwind run'),
+    'C14': ('PARTIAL. Coq theorems: max_len rule; totality of the one-shot parser; both parsers share the request-line function '
+            'and the header-line fold; the connection\'s behaviour on a well-formed slice (C02). The two implications of the '
+            'property are not proved as theorems (the CRLFCRLF/split equivalence was not completed); they are decided on every '
+            'run by executing both entry points of the implementation on the same slices and comparing field by field '
+            '(the oracle is the property), together with model-vs-implementation correspondence for both entry points.',
+            'DESIGN.md section 5 C14', 'differential comparison of the two entry points + Coq lemmas (partial proof)'),
+    'C15': ('Coq theorems about parse_header_line / headers_try_from / encoding_try_from: names classified identically up to '
+            'ASCII case (UTF-8 validity invariant under lower-casing) and through trim; invalid UTF-8 and missing colon fatal '
+            '(iff); Content-Length accepted iff u32::from_str grammar (characterised); Accept-Encoding fatal iff empty or a '
+            'token trims to identity;q=0 or *;q=0 without identity anywhere; unsupported Content-Type/Accept/Transfer-Encoding/'
+            'Expect values ignored with headers unchanged; each recognised line touches only its field; custom entries '
+            'trimmed, last wins, frame; flags sticky over blocks; block = fold of lines. PARTIAL: invariance under arbitrary '
+            'Unicode padding is expressed through trim but the lemma trim(pad++x++pad) = trim x is not proved. Independent '
+            'Python statement of the rules as oracle on line lists and blocks.', 'DESIGN.md section 5 C15',
+            'Coq proof (decision table as (bi-)implications, fold laws) + independent rules oracle'),
 }
 
 NOTE = ('Trusted: Coq kernel; hand-written model tied to /repo by literal regeneration (gen/srclit.py) and '
